@@ -1,8 +1,8 @@
 #!/bin/sh
-# tools/verify_seed.sh <property id>   -- re-verify every seeded bug an agent left in /tmp/wt/out-<id>/<n>/ using the
+# tools/verify_seed.sh <property id> [worktree name]  -- re-verify every seeded bug an agent left in /tmp/wt/out-<id>/<n>/ using the
 # agent's scratch worktree /tmp/wt/<id> (clean HEAD + _build). Writes /tmp/wt/out-<id>/<n>/verify.txt
 id="$1"
-wt=/tmp/wt/$id
+wt=/tmp/wt/${2:-$id}
 out=/tmp/wt/out-$id
 cd "$wt" || exit 2
 git checkout -q -- . 
